@@ -61,13 +61,25 @@ def run(ctx, config='rel-all', shares=True):
                     ctx.violation('R3', fn, 'call(global dealloc):sentinel', 'dealloc of footer %s is not dominated by the false edge of is_empty(f): the static empty chunk could be freed' % show(fp)[:80], e.span)
     ctx.floor('R2', n_pair, 2, 'acquire/release pairing sites')
     # ---- R3 releaser body: nothing touches the freed chunk after the dealloc
-    for fn in rel:
+    # the function that contains the dealloc call, and (when that is a helper extracted from the releaser) every level up to
+    # the releaser: after the call nothing may touch the chunk until the loop test / the return
+    levels = []
+    for rawfn in sorted({f for f, _ in c01.global_alloc_callers_raw(db).get('dealloc', [])}):
+        chain = c01.exclusive_chain(db, rawfn)
+        for k, f in enumerate(chain):
+            levels.append((f, None if k == 0 else chain[k - 1]))
+    for fn, via in levels:
         b = db.bodies.get(fn)
         g = db.cfg(b)
         loops = g.loops()
         for bi, t in db.calls(b):
-            if t['callee'].get('path') != 'alloc::alloc::dealloc':
-                continue
+            if via is None:
+                if t['callee'].get('path') != 'alloc::alloc::dealloc':
+                    continue
+            else:
+                vb = db.bodies.get(via)
+                if db.callee_path(t) not in (via, (vb['meta'].get('path') if vb else None)):
+                    continue
             hdrs = [h for h, blks in loops.items() if bi in blks]
             after = g.reach([t['t']] if t['t'] is not None else [], avoid_blocks=hdrs)
             bad = []
